@@ -70,8 +70,11 @@ def main():
     caught = [p for p, c in checks.items() if c["exit"] == 1]
     dest = os.path.join(mc.ROOT, "seeded", name)
     os.makedirs(dest, exist_ok=True)
-    shutil.copy(patch, os.path.join(dest, "patch.diff"))
-    shutil.copy(os.path.join(sdir, "demo.rs"), os.path.join(dest, "demo.rs"))
+    if os.path.abspath(sdir) != os.path.abspath(dest):
+        shutil.copy(patch, os.path.join(dest, "patch.diff"))
+        shutil.copy(os.path.join(sdir, "demo.rs"), os.path.join(dest, "demo.rs"))
+    if "checks_run" in meta:
+        meta.setdefault("earlier_runs", []).append({"at": meta.get("confirmed_at"), "checks_run": meta.get("checks_run"), "caught_by": meta.get("caught_by")})
     meta.update({"breaks_property": prop, "confirmed_by_me": ran,
                  "checks_run": {p: {"tier": tier, "exit": c["exit"], "signatures": c["signatures"][:6], "wall_s": c["wall_s"]} for p, c in checks.items()},
                  "caught_by": caught, "confirmed_at": time.strftime("%Y-%m-%d %H:%M:%S")})
